@@ -23,7 +23,8 @@ from sim.props.c02 import wrap_kind
 
 SECRET_NAMES = ['secret', 'secret_key', 'my_secret', 'db_secret_pw', 'apisecretkey', 'x.secret.y', 'secret-with-dash', 'a secret <b>',
                 'n' * 66 + '_secret', 'very_long_' * 9 + 'secret_at_the_end', 'secret' + '_padding' * 12]
-PLAIN_NAMES = ['token_ttl', 'db_url', 'debug', 'name', 'greeting', 'limits', 'weird <i>name</i>', 'SECRET_UPPER_IS_NOT_secretive'.replace('secret', 'zzz')]
+PLAIN_NAMES = ['token_ttl', 'db_url', 'debug', 'name', 'greeting', 'limits', 'weird <i>name</i>', 'page_title', '_meta_start_time',
+               'script_root_other', 'resources', 'exc_content', 'SECRET_UPPER_IS_NOT_secretive'.replace('secret', 'zzz')]
 VALUE_KINDS = ['str', 'bytes', 'number', 'list', 'dict', 'object', 'nested', 'longstr']
 COOKIE_KEY = b'C00KIE-SIGNING-KEY-7781'
 ROUTE_KINDS = ['function', 'lambda', 'method', 'callable', 'static', 'classmethod', 'decorated']
@@ -61,6 +62,13 @@ class BadRepr(object):
         raise RuntimeError('repr failed')
 
 
+class BadReprHTTP(object):
+    """repr() fails with an exception that happens to be an HTTP error class"""
+    def __repr__(self):
+        from clastic.errors import ServiceUnavailable
+        raise ServiceUnavailable('backend down')
+
+
 def make_value(kind, marker):
     if kind == 'str':
         return marker
@@ -80,6 +88,8 @@ def make_value(kind, marker):
         return marker + '-' + 'x' * 200
     if kind == 'badrepr':
         return BadRepr()
+    if kind == 'badrepr-http':
+        return BadReprHTTP()
     raise InvalidPlan('unknown value kind')
 
 
@@ -123,7 +133,7 @@ class C18(Check):
             for n in names[:nmax]:
                 kind = rng.choice(VALUE_KINDS)
                 if n in PLAIN_NAMES and rng.random() < 0.15:
-                    kind = 'badrepr'
+                    kind = rng.choice(['badrepr', 'badrepr-http'])
                 out.append({'name': n, 'kind': kind})
             return out
         return {'resources': resources(5), 'inner_resources': resources(3),
@@ -296,7 +306,7 @@ class C18(Check):
     def check_resources(view, body, serving, res):
         if not serving:
             return None
-        has_badrepr = any(kind == 'badrepr' for kind, _ in serving.values())
+        has_badrepr = any(kind.startswith('badrepr') for kind, _ in serving.values())
         if view == 'json':
             try:
                 doc = json.loads(body)
@@ -327,7 +337,7 @@ class C18(Check):
                     if '[REDACTED]' not in body:
                         return ('secret-not-marked-redacted', 'no redaction marker on the page')
                     res.probe('secret-redacted-html')
-            elif kind != 'badrepr':
+            elif not kind.startswith('badrepr'):
                 marker = marker_forms(kind, marker)[0]
                 if table is not None:
                     if name not in table or marker[:40] not in table[name]:
